@@ -62,7 +62,8 @@ def make_scenario(seed, tier):
             data = gzip.compress(data)
         elif comp == "z":
             data = zlib.compress(data)
-        mode = rng.choice([0o644, 0o600, 0o755, 0o444, 0o640])
+        # "the file mode is preserved" includes the setuid / setgid / sticky bits (S_IMODE compares all twelve)
+        mode = rng.choice([0o644, 0o600, 0o755, 0o444, 0o640, 0o2750, 0o1644, 0o4755, 0o2664, 0o6711])
         files.append({"name": name, "plain": text.encode(), "data": data, "comp": comp, "mode": mode, "n": n})
     flags = {"dkvp": ["--dkvp"], "csv": ["--csv"], "json": ["--json"]}[fmt] + seedflags
     return {"seed": seed, "fmt": fmt, "flags": flags, "verb": verb, "files": files}
